@@ -27,7 +27,9 @@ class Statistics(object):
 
     def __call__(self, **kwargs):
         data = self._get_data(kwargs)
-        if len(data) == 0:
+        if self.req_feature and len(data) == 0:
+            # no valid values for this feature (dataset-level methods
+            # such as "Events" are also defined for empty datasets)
             result = np.nan
         else:
             try:
